@@ -21,7 +21,7 @@ Lemma py_ins_shape bx v : py_insert_one_after bx v =
    t1 <- get_val bx ;; if val_is t1 v then ret bx else
    t2 <- get_own bx ;; if negb (t2 =? SELF) then raise ValueError else
    t3 <- dict_mem v ;; _ <- (if t3 then (t4 <- py_remove v ;; ret tt) else ret tt) ;; ins_tail bx v).
-Proof. reflexivity. Qed.
+Proof. unfold py_insert_one_after, ins_tail. reflexivity. Qed.
 
 Theorem py_insert_one_refines h s r v :
   R h s -> ref_live s r ->
@@ -66,4 +66,101 @@ Proof.
     rewrite (bind_ok (dict_mem v) _ h false h) by (unfold dict_mem; rewrite Hdict, Ef; reflexivity).
     rewrite (bind_ok _ _ h tt h) by reflexivity.
     rewrite ins_tail_eval. cbn [fst snd]. apply R_ins; assumption.
+Qed.
+
+Lemma pair_eta {A B} (p : A * B) : p = (fst p, snd p).
+Proof. destruct p; reflexivity. Qed.
+
+Lemma for_many_refines body vs :
+  (forall ip x, body ip x = (t1 <- py_insert_one_after ip x ;; ret t1)) ->
+  forall r h s, R h s -> ref_live s r ->
+  exists r', fst (for_m vs body (rid r) h) = Ok (rid r') /\ R (snd (for_m vs body (rid r) h)) (insert_many_after r vs s).
+Proof.
+  intros Hb. induction vs as [|x t IH]; intros r h s HR Hr; simpl.
+  - exists r. split; [reflexivity|exact HR].
+  - destruct (py_insert_one_refines h s r x HR Hr) as [E1 [HR1 Hr1]].
+    destruct (insert_one_after r x s) as [s1 r1] eqn:Em. simpl in E1, HR1, Hr1.
+    rewrite (bind_ok (body (rid r) x) _ h (rid r1) (snd (py_insert_one_after (rid r) x h))).
+    + apply IH; assumption.
+    + rewrite Hb. rewrite (bind_ok (py_insert_one_after (rid r) x) _ h (rid r1) (snd (py_insert_one_after (rid r) x h))); [reflexivity|].
+      rewrite (pair_eta (py_insert_one_after (rid r) x h)), E1. reflexivity.
+Qed.
+
+Lemma py_insert_many_refines vs r h s :
+  R h s -> ref_live s r ->
+  fst (py_insert_many_after (rid r) vs h) = Ok tt /\ R (snd (py_insert_many_after (rid r) vs h)) (insert_many_after r vs s).
+Proof.
+  intros HR Hr. unfold py_insert_many_after. cbv zeta.
+  destruct (for_many_refines _ vs (fun _ _ => eq_refl) r h s HR Hr) as [r' [E HR']].
+  match goal with |- context [bind (for_m vs ?b (rid r)) ?k h] =>
+    rewrite (bind_ok (for_m vs b (rid r)) k h (rid r') (snd (for_m vs b (rid r) h)))
+      by (rewrite (pair_eta (for_m vs b (rid r) h)), E; reflexivity) end.
+  split; [reflexivity|exact HR'].
+Qed.
+
+Lemma py_append_refines x h s :
+  R h s -> fst (py_append x h) = Ok tt /\ R (snd (py_append x h)) (append x s).
+Proof.
+  intros HR. pose proof HR as [Hw Hlive _ _ _ _ _]. unfold py_append, append.
+  rewrite (bind_ok (get_prev ROOT) _ h (rid (last_ref (live s))) h)
+    by (unfold get_prev; change ROOT with (rid Root); rewrite (Hlive Root I); reflexivity).
+  destruct (py_insert_one_refines h s (last_ref (live s)) x HR (last_ref_live s)) as [E1 [HR1 _]].
+  rewrite (bind_ok (py_insert_one_after (rid (last_ref (live s))) x) _ h _ _
+             (eq_trans (pair_eta _) (f_equal (fun a => (a, _)) E1))).
+  split; [reflexivity|exact HR1].
+Qed.
+
+Lemma py_extend_refines xs : forall h s,
+  R h s -> fst (py_extend xs h) = Ok tt /\ R (snd (py_extend xs h)) (extend xs s).
+Proof.
+  unfold py_extend, extend.
+  assert (H : forall h s, R h s ->
+     fst (for_m xs (fun (_ : unit) v_value => t1 <- py_append v_value ;; ret tt) tt h) = Ok tt /\
+     R (snd (for_m xs (fun (_ : unit) v_value => t1 <- py_append v_value ;; ret tt) tt h))
+       (fold_left (fun s x => append x s) xs s)).
+  { induction xs as [|x t IH]; intros h s HR; simpl; [split; [reflexivity|exact HR]|].
+    destruct (py_append_refines x h s HR) as [E1 HR1].
+    rewrite (bind_ok _ _ h tt (snd (py_append x h))).
+    - apply IH. exact HR1.
+    - rewrite (bind_ok (py_append x) _ h tt (snd (py_append x h))); [reflexivity|].
+      rewrite (pair_eta (py_append x h)), E1. reflexivity. }
+  intros h s HR. destruct (H h s HR) as [E HR'].
+  match goal with |- context [bind ?m ?k h] =>
+    rewrite (bind_ok m k h tt (snd (m h))) by (rewrite (pair_eta (m h)), E; reflexivity) end.
+  split; [reflexivity|exact HR'].
+Qed.
+
+(* THE HEAP REFINEMENT: every translated mutator acts on the box heap as the model's edit acts on the
+   sequence + tombstone state, with the same outcome *)
+Theorem happly_refines e h s :
+  R h s -> fst (happly e h) = snd (apply_edit e s) /\ R (snd (happly e h)) (fst (apply_edit e s)).
+Proof.
+  intros HR. pose proof HR as [Hw Hlive _ _ _ Hdict _]. destruct (wf_nodups s Hw) as [Hnd _].
+  destruct e as [x|xs|a xs|a xs|x]; cbn [happly].
+  - apply py_append_refines. exact HR.
+  - apply py_extend_refines. exact HR.
+  - simpl apply_edit. unfold py_insert_after. cbv zeta.
+    destruct (find_box (live s) a) as [b|] eqn:Ef.
+    + rewrite (bind_ok (dict_mem a) _ h true h) by (unfold dict_mem; rewrite Hdict, Ef; reflexivity).
+      cbn [negb]. rewrite (bind_ok (dict_get a) _ h (rid (B b)) h) by (unfold dict_get; rewrite Hdict, Ef; reflexivity).
+      apply find_box_Some in Ef.
+      destruct (py_insert_many_refines xs (B b) h s HR (in_live_ids _ _ _ Ef)) as [E HR'].
+      rewrite (bind_ok (py_insert_many_after (rid (B b)) xs) _ h tt _ (eq_trans (pair_eta _) (f_equal (fun a0 => (a0, _)) E))).
+      split; [reflexivity|exact HR'].
+    + rewrite (bind_ok (dict_mem a) _ h false h) by (unfold dict_mem; rewrite Hdict, Ef; reflexivity).
+      split; [reflexivity|exact HR].
+  - simpl apply_edit. unfold py_insert_before. cbv zeta.
+    destruct (find_box (live s) a) as [b|] eqn:Ef.
+    + rewrite (bind_ok (dict_mem a) _ h true h) by (unfold dict_mem; rewrite Hdict, Ef; reflexivity).
+      cbn [negb]. rewrite (bind_ok (dict_get a) _ h (rid (B b)) h) by (unfold dict_get; rewrite Hdict, Ef; reflexivity).
+      apply find_box_Some in Ef. pose proof (in_live_ids _ _ _ Ef) as Hb.
+      rewrite (bind_ok (get_prev (rid (B b))) _ h (rid (pred_ref (live s) b)) h)
+        by (unfold get_prev; rewrite (Hlive (B b) Hb); reflexivity).
+      destruct (py_insert_many_refines xs (pred_ref (live s) b) h s HR (pred_ref_live s b Hb Hnd)) as [E HR'].
+      rewrite (bind_ok (py_insert_many_after (rid (pred_ref (live s) b)) xs) _ h tt _
+                 (eq_trans (pair_eta _) (f_equal (fun a0 => (a0, _)) E))).
+      split; [reflexivity|exact HR'].
+    + rewrite (bind_ok (dict_mem a) _ h false h) by (unfold dict_mem; rewrite Hdict, Ef; reflexivity).
+      split; [reflexivity|exact HR].
+  - apply py_remove_refines. exact HR.
 Qed.
